@@ -11,6 +11,7 @@ import os
 from .. import drive, env, world
 from ..oracle import refhash, xmlread
 
+TECHNIQUE = 'runtime monitoring: differential oracle (system libxxhash via ctypes, coreutils, own base-58 codec) on every digest the real entry points return, record or print; read sizes observed through an injected open()'
 LEVEL = "exploration"
 RULE = (
     "case = (size from a boundary table around the observed read-chunk size, byte pattern, format subset) driven through "
